@@ -97,6 +97,48 @@ mut("dec-terminate-full-chunk", "hcobs/src/decoder.rs",
     "                    Ok(())",
     ["C07"])
 
+# ---- hcobs stream reader / chunker ----------------------------------------
+mut("chunker-no-fe-holdback", "hcobs/src/stream_reader.rs",
+    "        } else if *self.buf.slice().last().unwrap() == STUFF_SEQUENCE[0] {\n            // Split just before the last byte if it could be part of a stuff sequence\n            self.buf.slice().len() - 1",
+    "        } else if *self.buf.slice().last().unwrap() == STUFF_SEQUENCE[0] && self.buf.slice().len() < 3 {\n            // Split just before the last byte if it could be part of a stuff sequence\n            self.buf.slice().len() - 1",
+    ["C06", "C08"])
+mut("chunker-refill-lt1", "hcobs/src/stream_reader.rs",
+    "        while self.buf.slice().len() < 2 {",
+    "        while self.buf.slice().len() < 1 {",
+    ["C06", "C08"])
+mut("chunker-block-min-1", "hcobs/src/stream_reader.rs",
+    "        let io_block_size = io_block_size.max(STUFF_SEQUENCE.len());",
+    "        let io_block_size = io_block_size.max(1);",
+    ["C06", "C08"])
+mut("chunker-offset-early", "hcobs/src/stream_reader.rs",
+    "        self.offset += prefix.slice().len() as u64;\n        Ok(Chunk::Data((self.offset, prefix)))",
+    "        self.offset += prefix.slice().len() as u64 + (self.buf.slice().len() == 1) as u64;\n        Ok(Chunk::Data((self.offset, prefix)))",
+    ["C06", "C08"])
+mut("reader-range-end-stale", "hcobs/src/stream_reader.rs",
+    "                        range.end = offset;",
+    "                        if range.end == range.start { range.end = offset; }",
+    ["C06"])
+mut("reader-limit-gt", "hcobs/src/stream_reader.rs",
+    "            if range.start >= limit_offset {",
+    "            if range.start > limit_offset {",
+    ["C06"])
+mut("reader-size-ge", "hcobs/src/stream_reader.rs",
+    "            } else if iovec.total_size() > max_record_size {",
+    "            } else if iovec.total_size() >= max_record_size {",
+    ["C06"])
+mut("reader-no-clear", "hcobs/src/stream_reader.rs",
+    "            self.iovec.clear();\n            let mut decoder",
+    "            if self.iovec.total_size() > 2 { self.iovec.clear(); }\n            let mut decoder",
+    ["C06"])
+mut("reader-skip-judged-late", "hcobs/src/stream_reader.rs",
+    "                    StreamAction::SkipRecord => state = State::SkipRecord,",
+    "                    StreamAction::SkipRecord => { if range.end - range.start > 3 { state = State::SkipRecord } }",
+    ["C06"])
+mut("reader-last-sentinel", "hcobs/src/stream_reader.rs",
+    "                        self.last_sentinel_offset = offset - (STUFF_SEQUENCE.len() as u64);",
+    "                        if state != State::SkipSentinel { self.last_sentinel_offset = offset - (STUFF_SEQUENCE.len() as u64); }",
+    ["C06"])
+
 # ---- streaming / iovec behaviour seen through the codecs -------------------
 mut("iovec-stable-prefix-last-backref", "owning_iovec/src/implementation.rs",
     "            .backrefs\n            .first()\n            .map(|backref| backref.1.unwrap().slice_index);",
